@@ -289,7 +289,7 @@ def gen_items(rng, decls, toks, depth=0, nitems=None, fancy=True, used_titles=No
             toks.append(val_token(rng, d.typ, fancy)[0])
 
 
-ODD_KEYS = ['a b', 'x#y', 'q"r', 'k+', 'br{ace', 'clo}se', 'two\nlines', 'a,b', 'p(q)', 'sl//ash', 'st/*ar', 'dollar$x', "it's", 'back\\slash', 'tab\there', '\xe9t\xe9', '*', '+=', '${HOME}', 'a|b', 'x=y', 'alpha|z', '|', 'k1=0|x', 'cr\rkey', 'ff\x0ckey', '\x7f', 'nb\xa0sp']
+ODD_KEYS = ['a b', 'x#y', 'q"r', 'k+', 'br{ace', 'clo}se', 'two\nlines', 'a,b', 'p(q)', 'sl//ash', 'st/*ar', 'dollar$x', "it's", 'back\\slash', 'tab\there', '\xe9t\xe9', '*', '+=', '${HOME}', 'a|b', 'x=y', 'alpha|z', '|', 'k1=0|x', 'cr\rkey', 'ff\x0ckey', '\x7f', 'nb\xa0sp', '//fileserver/share', '/*star', '/', '//', 'a//b', '#hash', 'end/']
 
 
 def gen_keyvals(rng, d, toks, fancy, to):
